@@ -674,7 +674,8 @@ def run(prog, rep, tier):
     R39 = rep.rule("R3.9", "no window bound is compared with the file's modification time")
     n39 = 0
     for p_ in sorted(prog.facts.bodies):
-        if not p_.startswith("s4lib::readers::syslogprocessor::SyslogProcessor::") or "_tests" in p_:
+        if not (p_.startswith("s4lib::readers::syslogprocessor::SyslogProcessor::") or p_.startswith("s4::exec_") or p_.startswith("s4lib::readers::evtxreader::EvtxReader::")
+                or p_.startswith("s4lib::readers::journalreader::JournalReader::") or p_.startswith("s4lib::readers::fixedstructreader::FixedStructReader::")) or "_tests" in p_ or "{closure" in p_:
             continue
         sb_ = prog.body(p_)
         mt = set()
